@@ -68,7 +68,7 @@ FLOORS = {
                    "macro.additivity": 300, "macro.creator": 60, "macro.derived": 60, "macro.totalscatter": 100, "macro.energy": 60,
                    "macro.empty": 20, "fixture.order": 100, "fixture.conflict": 4, "fixture.macro": 12,
                    "merge.chi-flag-after-file-wide-chi-removal": 150, "macro.creator-gamma": 150, "macro.derived-gamma": 150, "macro.creator-missing": 150, "macro.creator-nucnames": 80,
-                   "macro.multlib": 250, "macro.energy-missing": 300, "merge.questions-between-merges": 1500, "merge.views": 1200,
+                   "macro.multlib": 250, "macro.energy-missing": 300, "conflict.neutron-bounds.target-without-velocity": 5, "merge.questions-between-merges": 1500, "merge.views": 1200,
                    "compxs.order": 30, "compxs.region-identity": 250, "compxs.library-level": 30, "compxs.order-independence": 25,
                    "compxs.conflict.refused/group-structure": 45, "compxs.unchanged-check": 60},
                   **{"conflict.refused/%s" % k: 10 for k in _KINDS_FLOOR}),
@@ -77,7 +77,7 @@ FLOORS = {
                       "macro.additivity": 6000, "macro.creator": 1200, "macro.derived": 1200, "macro.totalscatter": 2000, "macro.energy": 1200,
                       "macro.empty": 400, "fixture.order": 170, "fixture.conflict": 4, "fixture.macro": 100,
                       "merge.chi-flag-after-file-wide-chi-removal": 3000, "macro.creator-gamma": 3000, "macro.derived-gamma": 3000, "macro.creator-missing": 3000, "macro.creator-nucnames": 1500,
-                      "macro.multlib": 5000, "macro.energy-missing": 6000, "merge.questions-between-merges": 30000, "merge.views": 24000,
+                      "macro.multlib": 5000, "macro.energy-missing": 6000, "conflict.neutron-bounds.target-without-velocity": 60, "merge.questions-between-merges": 30000, "merge.views": 24000,
                       "compxs.order": 1200, "compxs.region-identity": 10000, "compxs.library-level": 1200, "compxs.order-independence": 1000,
                       "compxs.conflict.refused/group-structure": 900, "compxs.unchanged-check": 1200},
                      **{"conflict.refused/%s" % k: 200 for k in _KINDS_FLOOR}),
@@ -890,7 +890,8 @@ def classify_changes(before, after, offender=None):
         changes["nuclides-added"] = {"before": len(before["labels"]), "after": len(after["labels"])}
     pch = [p for p in PROPS if before["props"][p] != after["props"][p]]
     if pch:
-        changes["properties"] = {"changed": pch}
+        # which properties is part of the mechanism key: only the ones a refused merge installs TODAY are known
+        changes["properties/" + "+".join(pch)] = {"changed": pch}
     mch = diff_paths(before["meta"], after["meta"])
     if mch:
         changes["library-metadata"] = {"paths": mch[:5]}
@@ -916,8 +917,8 @@ def classify_changes(before, after, offender=None):
     return changes
 
 
-STAGE_OF = {"same-label-same-kind": "clash", "same-label-same-kind/premerged": "clash", "neutron-bounds": "energy-conflict",
-            "gamma-bounds": "energy-conflict", "dose-factors": "dose-conflict", "file-metadata": "metadata-conflict"}
+STAGE_OF = {"same-label-same-kind": "clash", "same-label-same-kind/premerged": "clash", "neutron-bounds": "neutron-energy-conflict",
+            "gamma-bounds": "gamma-energy-conflict", "dose-factors": "dose-conflict", "file-metadata": "metadata-conflict"}
 
 
 def judge_refusal(rec, target, offender, before, conflict, witness, named=True, hit="conflict"):
@@ -957,6 +958,12 @@ def do_conflict(spec, rec):
             fam["dose"] = True
             if not any(s_["kind"] == "pmatrx" for s_ in specs):
                 specs[0].update(kind="pmatrx", fileChi=False)
+        if conflict == "neutron-bounds" and i % 2 == 1:
+            # the target knows its neutron group structure but holds no velocity yet (a PMATRX library read before its ISOTXS sibling)
+            # and the refused library brings one: nothing of the refused library may stay behind
+            specs = [specs[0]]
+            specs[0].update(kind="pmatrx", fileChi=False)
+            rec.hit("conflict.neutron-bounds.target-without-velocity")
         plan_ = plant_conflict(rng, fam, specs, conflict, "c%d" % i)
         if plan_ is None:
             rec.skip("conflict kind %s not applicable to the generated target (no such data in it)" % conflict)
@@ -1033,6 +1040,8 @@ def plant_conflict(rng, fam, specs, conflict, tag):
         if not ({"isotxs", "pmatrx"} & kindsIn):
             return None
         kind = rng.choice(["isotxs", "pmatrx"])
+        if len(specs) == 1 and specs[0]["kind"] == "pmatrx":
+            kind = "isotxs"  # the offender carries a neutron velocity, the target none
         how = rng.choice(["count", "value", "ulp"])
         if how == "count" or fam["ng"] == 0:
             ng = rng.choice([g for g in range(1, 9) if g != fam["ng"]])
